@@ -238,6 +238,49 @@ pub fn generate(prop: &str, thorough: bool, rng: &mut Rng) -> Case {
                 clients.push(ops_b);
             }
         }
+        "C12" if rng.chance(1, 6) => {
+            // wrap variant: a small device is overwritten one to three times (blocks are reclaimed and reused) with a FIFO
+            // picker that keeps a third of the blocks on probation; then every key is looked up on disk, evicted and
+            // looked up again: only hits in blocks that are on probation at that time may be rewritten
+            cfg.insert("comp".into(), 0);
+            let keys = 8 + rng.below(5) as u64;
+            cfg.insert("keys".into(), keys as i64);
+            cfg.insert("policy".into(), 0);
+            cfg.insert("mem_cap".into(), 2 + rng.below(2) as i64);
+            cfg.insert("flush_on_close".into(), 1);
+            cfg.insert("blocks".into(), 6 + rng.below(4) as i64);
+            cfg.insert("block_pages".into(), 8);
+            cfg.insert("clean_thr".into(), 1);
+            cfg.insert("flushers".into(), 1);
+            cfg.insert("reclaimers".into(), 1);
+            cfg.insert("picker".into(), 3);
+            cfg.insert("inmem_mod".into(), 0);
+            cfg.insert("ondisk_mod".into(), 0);
+            cfg.insert("tomb".into(), 0);
+            fit_buffers(&mut cfg, rng, false);
+            let pages = cfg["blocks"] as usize * 7;
+            let n = pages + rng.below(2 * pages);
+            let mut ops = vec![];
+            for i in 0..n {
+                ops.push(Op::Insert { k: rng.below(keys as usize) as u64, ver: 0, w: 1, loc: 0, hold: false });
+                if i % 16 == 15 {
+                    ops.push(Op::Wait);
+                }
+            }
+            ops.push(Op::EvictAll);
+            ops.push(Op::Wait);
+            for round in 0..2 {
+                for k in 0..keys {
+                    ops.push(Op::Get { k, hold: false });
+                }
+                if round == 0 {
+                    ops.push(Op::EvictAll);
+                    ops.push(Op::Wait);
+                }
+            }
+            ops.push(Op::Wait);
+            clients.push(ops);
+        }
         "C12" => {
             cfg.insert("comp".into(), 0);
             let keys = 4 + rng.below(3) as u64;
@@ -246,7 +289,7 @@ pub fn generate(prop: &str, thorough: bool, rng: &mut Rng) -> Case {
             cfg.insert("flush_on_close".into(), rng.below(2) as i64);
             cfg.insert("blocks".into(), if rng.chance(1, 2) { 4 + rng.below(3) as i64 } else { 8 + rng.below(8) as i64 });
             cfg.insert("clean_thr".into(), 1 + rng.below(2) as i64);
-            cfg.insert("picker".into(), if rng.chance(1, 2) { 1 } else { 0 });
+            cfg.insert("picker".into(), *rng.pick(&[0i64, 0, 1, 1, 3, 3]));
             fit_buffers(&mut cfg, rng, false);
             let inmem_mod = if rng.chance(1, 2) { 3 } else { 0 };
             let ondisk_mod = if rng.chance(1, 2) { 4 } else { 0 };
